@@ -414,3 +414,109 @@ def rule_dsread_light(ctx, R):
         raise AnalysisBroken('RV-DSREAD-LIGHT: ' + undecided[0])
     for u in undecided:
         R.note('RV-DSREAD-LIGHT: ' + u)
+
+
+@memoised('RV-DSITEM-HSEM')
+def rule_dsitem(ctx, R):
+    R.rule('RV-DSITEM-HSEM', 'the hand-written pieces of the RV64 SuperscalarHash routine, executed on terms, are the steps of specification 7.3: r0 = (item + 1) * superscalarMul0, r_i = r0 ^ superscalarAdd_i with the constants of the '
+           'literal pool, first cache line = cache memory + (item & (CacheSize / 64 - 1)) * 64; r_i ^= the i-th word of the line; next line = cache memory + (register & mask) * 64; both ISA variants', min_instances=36)
+    import astq
+    from rules import bitlin
+    FI = astq.Facts(ctx, 'K0')
+    mul0 = FI.const('randomx::superscalarMul0')
+    adds = [FI.const('randomx::superscalarAdd%d' % i) for i in range(1, 8)]
+    cmask = FI.const('randomx::CacheSize') // 64 - 1
+
+    class M(DsMachine):
+        def step32(self, w, where):
+            opc, rd, f3, rs1 = w & 0x7f, (w >> 7) & 31, (w >> 12) & 7, (w >> 15) & 31
+            if opc == 0x03 and f3 == 3 and self.get(rs1) == atom(('litpool',)):
+                off = V.sx(w >> 20, 12)
+                self.put(rd, const(self.lit_word(off) | (self.lit_word(off + 4) << 32)))
+                return 'ld='
+            if opc == 0x17:
+                self.put(rd, atom(('undef', 1000 + rd)))
+                return 'auipc'
+            return DsMachine.step32(self, w, where)
+    for arch in ('rv64', 'rv64b'):
+        o = ctx.obj(arch)
+        P = rtasm.Prog(o, 'rv')
+        R.saw(unit='src/jit_compiler_rv64_static.S', config='K3' + (' +zba +zbb' if arch == 'rv64b' else ''))
+        s_i, s_l, s_p, s_e = (P.sym('randomx_riscv64_ssh_' + x) for x in ('init', 'load', 'prefetch', 'end'))
+        pool = o.sym('literal_pool') if o.has('literal_pool') else o.sym('randomx_riscv64_literals')
+        f0 = rtasm.Frame(P)
+        f0.run(P.sym('randomx_riscv64_data_init'), stop={P.sym('randomx_riscv64_fix_data_call')})
+        lit = [r for r, v in f0.reg.items() if v == ('addr', pool)]
+        if len(lit) != 1:
+            raise AnalysisBroken('RV-DSITEM-HSEM: the literal pool pointer of the dataset-init entry was not identified')
+        lit_reg = int(lit[0][1:])
+        where = 'src/jit_compiler_rv64_static.S:randomx_riscv64_ssh_init'
+
+        def run(m, lo, hi):
+            tr = []
+            for a in P.order:
+                if lo <= a < hi:
+                    i = P.ins[a]
+                    try:
+                        tr.append(m.step16(i.raw, P.name_at(a)) if i.size == 2 else m.step32(i.raw, P.name_at(a)))
+                    except V.NotInteger as e:
+                        raise AnalysisBroken('RV-DSITEM-HSEM: %s at %s' % (e, P.name_at(a)))
+            return tr
+
+        def report(inst, got, want, tr):
+            verdict, how = bitlin.decide(got, want)
+            if verdict == 'eq':
+                R.ok(inst, where)
+            elif verdict == 'unknown':
+                raise AnalysisBroken('RV-DSITEM-HSEM: %s is %s, expected %s; undecided' % (inst, T.term_show(got, None), T.term_show(want, None)))
+            else:
+                R.violation(inst, where, expected=T.term_show(want, None), found='%s after `%s`; %s' % (T.term_show(got, None), ' ; '.join(tr), how))
+        # the eight result registers: the ones the dataset-init entry stores after the call, in order
+        st = [P.ins[a] for a in P.order if P.sym('randomx_riscv64_fix_data_call') < a < P.sym('randomx_riscv64_prologue') and P.ins[a].kind == 'store' and 'sp' not in P.ins[a].ops[-1] and '(x2)' not in P.ins[a].ops[-1]]
+        res = []
+        for i in st[:8]:
+            mo = rtasm.re.match(r'^(-?\d+)\((\w+)\)$', i.ops[1].strip())
+            res.append((int(mo.group(1)) if mo else None, int(rtasm.rv_reg(i.ops[0])[1:])))
+        if [x for x, _ in res] != [8 * k for k in range(8)] or len({r for _, r in res}) != 8:
+            R.violation('%s result registers' % arch, 'src/jit_compiler_rv64_static.S:randomx_riscv64_fix_data_call', expected='eight different registers stored at output + 8k', found=res)
+            continue
+        rr = [r for _, r in res]
+        item_reg, cache_reg = 7, 6
+        # (a) initialisation
+        m = M([], lit_reg, lambda off: o.u32(pool + off))
+        m.x = {0: const(0), lit_reg: atom(('litpool',))}
+        tr = run(m, s_i, s_l)
+        item, cache = atom(('undef', item_reg)), atom(('undef', cache_reg))
+        r0 = T.scale(add(item, const(1)), mul0)
+        report('%s r0 = (item + 1) * superscalarMul0' % arch, m.get(rr[0]), r0, tr)
+        for k in range(1, 8):
+            report('%s r%d = r0 ^ superscalarAdd%d' % (arch, k, k), m.get(rr[k]), xor(r0, const(adds[k - 1])), tr)
+        # which register holds the line pointer: the base of the loads of the mixing piece
+        bases = {(P.ins[a].raw >> 15) & 31 for a in P.order if s_l <= a < s_p and P.ins[a].size == 4 and (P.ins[a].raw & 0x707f) == 0x3003}
+        cb = {8 + ((P.ins[a].raw >> 7) & 7) for a in P.order if s_l <= a < s_p and P.ins[a].size == 2 and (P.ins[a].raw & 0xe003) == 0x6000}
+        bases |= cb
+        if len(bases) != 1:
+            R.violation('%s line pointer register' % arch, where, expected='one base register for the eight loads of the line', found=sorted(bases))
+            continue
+        lp = list(bases)[0]
+        report('%s first cache line (x%d)' % (arch, lp), m.get(lp), add(cache, T.scale(X.and_(item, const(cmask)), 64)), tr)
+        # (b) mixing in the line
+        m = M(rr, lit_reg, lambda off: o.u32(pool + off))
+        m.x[lp] = atom(('undef', 103))
+        tr = run(m, s_l, s_p)
+        for k in range(8):
+            report('%s r%d ^= word %d of the line' % (arch, k, k), m.get(rr[k]), xor(atom(('reg', k)), X.ld64(add(atom(('undef', 103)), const(8 * k)))), tr)
+        # (c) next line: the piece reads the mask the mixing piece left in the line-pointer register
+        maskv = m.get(lp)
+        R.check(maskv == const(cmask), '%s line mask' % arch, where, expected='%#x (CacheSize / 64 - 1)' % cmask, found=T.term_show(maskv, None))
+        w0 = P.ins[s_p].raw
+        if P.ins[s_p].size != 4 or (w0 & 0xfe00707f) != 0x00007033:
+            raise AnalysisBroken('RV-DSITEM-HSEM: the first instruction of the prefetch piece is not `and rd, rs1, rs2` (the generator patches rs1)')
+        src = (w0 >> 15) & 31
+        m2 = M(rr, lit_reg, lambda off: o.u32(pool + off))
+        m2.x[lp] = maskv
+        tr = run(m2, s_p, s_e)
+        if src not in rr:
+            R.violation('%s next line: source register' % arch, where, expected='one of the eight result registers (patched by the generator)', found='x%d' % src)
+        else:
+            report('%s next line (x%d)' % (arch, lp), m2.get(lp), add(cache, T.scale(X.and_(atom(('reg', rr.index(src))), const(cmask)), 64)), tr)
